@@ -250,6 +250,9 @@ def check_b3(ctx, fn: FuncInfo, tag: str) -> None:
                       f'{prod} tax-credit model is built from {args} under {g}; expected {want} when that credit is provided')
     ctx.floor('B3', n, 7, f'{tag}: price/PTC model call sites')
     # zero-initialised PTC series when no credit is provided
+    if n < 7:
+        # the call sites were rewritten (table loop, helper): the initialisation below is looked for in the same, old shape - not decidable
+        raise AnalysisError(f'{tag}: only {n} price/PTC model call sites found in the expected shape (rewritten): cannot decide')
     for p in PRODUCTS:
         z = [s for s in fn.node.body if isinstance(s, ast.Assign) and norm(s.targets[0]) == f'self.PTC{p}Price']
         ctx.check(len(z) == 1 and norm(z[0].value) == f'[0.0] * {L}', 'B3', f'{tag}/PTC{p}Price/default-zero', f'{rel}:{z[0].lineno if z else fn.node.lineno}',
